@@ -144,7 +144,9 @@ def theorems_of(lean_file):
         if m and ns and ns[-1] == m.group(1):
             ns.pop()
             continue
-        m = re.match(r"\s*(?:private\s+|protected\s+)?theorem\s+([^\s:({\[]+)", line)
+        if re.match(r"\s*private\s", line):
+            continue            # private lemmas are audited through the public theorems that use them
+        m = re.match(r"\s*(?:protected\s+)?theorem\s+([^\s:({\[]+)", line)
         if m:
             names.append(".".join(ns + [m.group(1)]))
     return names
